@@ -75,7 +75,7 @@ int main(int argc, char** argv) {
     if (stream == "pred-sm") {
         for (long i = 0; i < n; i++) { std::string c; std::string t = predSM(r, out, c); out.emit(c, t); }
         GEOS_finish_r(h); return 0; }
-    GridGen gen(r, h, &out);
+    GridGen gen(r, h, &out); gen.walkPct = 15;
     for (long i = 0; i < n; i++) {
         gen.span = r.chance(60) ? 6 : (r.chance(40) ? 3 : 10);
         gen.setPartner(GGeom{}, 0);
@@ -85,7 +85,8 @@ int main(int argc, char** argv) {
         int mode = (int) r.below(100);
         if (mode < 4) B = A;
         else if (mode < 10 && gen.holeSwallower(A, B)) {}
-        else { if (mode < 22) gen.setPartnerInterior(A); B = gen.geom(3, true, true); }
+        else if (mode < 20) B = gen.partialCover(A, true);
+        else { if (mode < 30) gen.setPartnerInterior(A); B = gen.geom(3, true, true); }
         if (r.chance(50)) std::swap(A, B);
         Xform t = gen.xform();
         std::string ta = GridGen::geomTok(A, t), tb = GridGen::geomTok(B, t);
